@@ -602,3 +602,25 @@ func (t *SymTab) Attestation(a Att, message []byte) []byte {
 func (t *SymTab) RawBody(id, n int) []byte {
 	return prf(t.Seed, fmt.Sprintf("body:%d:%d", id, n), n)
 }
+
+// Threshold values: small abstract numbers are themselves; 1000000+k stands for 2^31+k and 2000000-k for 2^32-1-k
+// (the specification compares a threshold only with set sizes; the code's uint32 arithmetic has its own corners).
+func ThresholdVal(a int) uint32 {
+	switch {
+	case a >= 1_500_000:
+		return uint32(0xFFFFFFFF - uint64(2_000_000-a))
+	case a >= 1_000_000:
+		return uint32(1<<31 + uint64(a-1_000_000))
+	}
+	return uint32(a)
+}
+
+func ThresholdSym(v uint32) int {
+	switch {
+	case v >= 0xFFFFFFFF-1000:
+		return 2_000_000 - int(0xFFFFFFFF-v)
+	case v >= 1<<31 && v < 1<<31+1000:
+		return 1_000_000 + int(v-1<<31)
+	}
+	return int(v)
+}
